@@ -248,7 +248,7 @@ def trees(draw, special):
             files[rel] = {"kind": "pxd", "deps": [], "decoys": [], "rev": 0}
             pkg_members.append(rel)
     pxis = []
-    for i in range(draw(st.integers(1, 2))):
+    for i in range(draw(st.sampled_from([1, 2, 2]))):
         rel = "inc%d.pxi" % i
         files[rel] = {"kind": "pxi", "deps": [], "decoys": [], "rev": 0}
         pxis.append(rel)
@@ -305,7 +305,7 @@ def trees(draw, special):
             others = [p for p in pxds if p != a and not reaches(tree, p, a)]
             if others:
                 add_cimport(declpxi, draw(st.sampled_from(others)))
-    if len(pxis) == 2 and draw(st.booleans()):
+    if len(pxis) == 2 and draw(st.integers(0, 2)) != 0:
         files[pxis[0]]["deps"].append(["include", "include", pxis[1]])
     if draw(st.booleans()):
         add_cimport(draw(st.sampled_from(pxis)), draw(st.sampled_from(all_pxd)))
@@ -357,4 +357,6 @@ def histories(draw, special=None):
             op = draw(st.sampled_from(OPS))
             ops.append([op, draw(st.integers(0, 63)), draw(st.integers(0, 63)), draw(st.integers(0, 63))])
         steps.append(ops)
+    # closing probe (cheap: nothing should be recompiled for that module): make one closure file exactly as old as a C file
+    steps.append([["touch-tie", draw(st.integers(0, 63)), draw(st.integers(0, 63)), 0]])
     return tree, steps
